@@ -517,6 +517,27 @@ func compress(p []byte) []byte {
 
 type noReset struct{ r io.Reader }
 
+// failClose / failCloseReset: decompressors whose Close reports an error.
+type failClose struct{ r io.Reader }
+
+func (f failClose) Read(p []byte) (int, error) { return f.r.Read(p) }
+func (f failClose) Close() error               { return errors.New("decompressor: close failed") }
+
+// readResetter is the adapter an application writes to let the Reader re-use its decompressor: wsflate's optional
+// ReadResetter interface is Reset(io.Reader), compress/flate's own method is Reset(io.Reader, dict) error.
+type readResetter struct {
+	rc   io.ReadCloser
+	dict []byte
+}
+
+func (r readResetter) Read(p []byte) (int, error) { return r.rc.Read(p) }
+func (r readResetter) Close() error               { return r.rc.Close() }
+func (r readResetter) Reset(src io.Reader)        { r.rc.(flate.Resetter).Reset(src, r.dict) }
+
+type failCloseReset struct{ readResetter }
+
+func (f failCloseReset) Close() error { return errors.New("decompressor: close failed") }
+
 func (n noReset) Read(p []byte) (int, error) { return n.r.Read(p) }
 
 func subFlateReader() mon.Sub {
@@ -536,13 +557,22 @@ func subFlateReader() mon.Sub {
 			if c.I/12%3 == 1 {
 				dict = []byte("history data history data AAAA BBBB CCCC DDDD {\"type\":\"message\",\"payload\":")
 			}
+			// one case in four: a decompressor whose Close reports an error (the Reader keeps it until the next Reset)
+			closeFails := c.I/36%4 == 3
 			ctor := func(r io.Reader) wsflate.Decompressor {
 				f := flate.NewReader(r)
 				if dict != nil {
 					f = flate.NewReaderDict(r, dict)
 				}
-				if resettable {
-					return f
+				switch {
+				case closeFails && resettable:
+					return failCloseReset{readResetter{f, dict}}
+				case closeFails:
+					return failClose{f}
+				case resettable && c.I/4%2 == 0:
+					return readResetter{f, dict} // re-used by the Reader through wsflate.ReadResetter
+				case resettable:
+					return f // compress/flate's reader as it is (its own Reset has another signature: a new one per Reset)
 				}
 				return noReset{f}
 			}
@@ -612,6 +642,10 @@ func subFlateReader() mon.Sub {
 					cl := c.Rng.Intn(2) == 0
 					if cl {
 						a.Close()
+						if c.Rng.Intn(3) == 0 {
+							a.Close() // (and once more, as a deferred Close after an explicit one does)
+							a.Read(make([]byte, 1))
+						}
 					}
 					hdesc += fmt.Sprintf("[%s source of %d bytes, read %d, closed %v] ", kind, len(data), rd, cl)
 				}
@@ -644,14 +678,14 @@ func subFlateReader() mon.Sub {
 			ca, cb := a.Close(), b.Close()
 			if !bytes.Equal(ra, rb) || fmt.Sprint(ea) != fmt.Sprint(eb) || fmt.Sprint(ca) != fmt.Sprint(cb) {
 				c.Fail(fmt.Sprintf("flate-reader/reset/history-%d", hkind), fmt.Sprintf("a decompression reader after Reset differs from a new one: %d bytes err=%v close=%v vs %d bytes err=%v close=%v", len(ra), ea, ca, len(rb), eb, cb),
-					map[string]interface{}{"history": hdesc, "resettable": resettable, "preset_dictionary": dict != nil, "stream_variant": variant, "plan": plan.String(), "byte_reader": byteReader})
+					map[string]interface{}{"history": hdesc, "resettable": resettable, "close_fails": closeFails, "preset_dictionary": dict != nil, "stream_variant": variant, "plan": plan.String(), "byte_reader": byteReader})
 				return
 			}
 			if variant == 0 && (!bytes.Equal(rb, msg) || eb != nil) {
 				c.Inconclusive("fresh reader does not recover the message (C12's business)")
 				return
 			}
-			c.Classf("hist=%d resettable=%v variant=%d", hkind, resettable, variant)
+			c.Classf("hist=%d resettable=%v variant=%d closefails=%v", hkind, resettable, variant, closeFails)
 			c.Sample(map[string]interface{}{"history": hdesc, "stream_variant": variant})
 		},
 	}
